@@ -30,12 +30,14 @@ def _rgba_pixels(d: dict):
         return [c] * n
     if pat == "runs":
         out = []
+        if d.get("force_color"):
+            pal = pal + [tuple(d["force_color"])] * 6
         while len(out) < n:
             c = rng.choice(pal) + (rng.choice([0, 255, 255, 255, 128]),)
             out += [c] * rng.choice([1, 2, 3, w - 1 or 1, w])
         return out[:n]
     if pat == "alpha-steps":
-        c = rng.choice(pal)
+        c = tuple(d["force_color"]) if d.get("force_color") else rng.choice(pal)
         return [c + (alphas[(i // max(1, rng.choice([1, 2, 3]))) % len(alphas)],) for i in range(n)]
     if pat == "two-tone":
         a, b = rng.choice(pal), rng.choice(pal)
